@@ -332,4 +332,256 @@ theorem splitFields_values (ifs : Str) (vals : List Str) (c a u : Bool) :
       vals.flatMap fun v => (fieldsOf ifs v).map (fun x => [Piece.split x]) := by
   simp [splitFields, splitGo_values]
 
+/-! ## coalescing is associative; splitting and globbing distribute over a word cut at an unquoted IFS space -/
+
+theorem glue_nil_right' (a : List Field) : glue a [] = a := by
+  cases a with
+  | nil => rfl
+  | cons x r => cases r <;> rfl
+
+theorem glue_cons_cons (x y : Field) (r new : List Field) : glue (x :: y :: r) new = x :: glue (y :: r) new := by
+  cases new with
+  | nil => simp [glue_nil_right']
+  | cons f fs => rfl
+
+theorem glue_assoc (a b c : List Field) : glue (glue a b) c = glue a (glue b c) := by
+  induction a with
+  | nil => rfl
+  | cons x r ih =>
+    cases r with
+    | nil =>
+      cases b with
+      | nil => simp [glue]
+      | cons f fs =>
+        cases fs with
+        | nil =>
+          cases c with
+          | nil => simp [glue]
+          | cons g gs => simp [glue, List.append_assoc]
+        | cons h t =>
+          simp only [glue, glue_cons_cons]
+    | cons y r' =>
+      rw [glue_cons_cons, glue_cons_cons]
+      have hne : ∃ z zs, glue (y :: r') b = z :: zs := by
+        cases b with
+        | nil => exact ⟨y, r', by simp [glue_nil_right']⟩
+        | cons f fs =>
+          cases r' with
+          | nil => exact ⟨_, _, rfl⟩
+          | cons q qs => exact ⟨_, _, glue_cons_cons _ _ _ _⟩
+      obtain ⟨z, zs, hz⟩ := hne
+      rw [← ih]
+      rw [hz]
+      cases zs with
+      | nil =>
+        cases c with
+        | nil => simp [glue]
+        | cons g gs => simp [glue]
+      | cons q qs => rw [glue_cons_cons]
+
+/-- the fields of a coalesced list of expansions -/
+def cstep (acc e : Expansion) : Expansion :=
+  { fields := glue acc.fields e.fields, concatenate := e.concatenate, fromArray := e.fromArray, undefined := acc.undefined }
+
+theorem foldl_cstep_fields (es : List Expansion) : ∀ acc : Expansion,
+    (es.foldl cstep acc).fields = glue acc.fields (es.foldl cstep { fields := [] }).fields := by
+  induction es with
+  | nil => intro acc; simp [glue_nil_right']
+  | cons e r ih =>
+    intro acc
+    rw [List.foldl_cons, List.foldl_cons, ih (cstep acc e), ih (cstep { fields := [] } e)]
+    simp only [cstep, glue]
+    rw [glue_assoc]
+
+theorem coalesce_eq (es : List Expansion) : coalesce es = es.foldl cstep { fields := [] } := rfl
+
+theorem coalesce_append_fields (a b : List Expansion) :
+    (coalesce (a ++ b)).fields = glue (coalesce a).fields (coalesce b).fields := by
+  rw [coalesce_eq, coalesce_eq, coalesce_eq, List.foldl_append, foldl_cstep_fields]
+
+/-! splitting -/
+
+def splitAll (ifs : Str) (st : SplitSt) (fields : List Field) : SplitSt :=
+  fields.foldl (fun st f => flushCur (splitPieces ifs st f)) st
+
+theorem splitGo_eq (ifs : Str) (fields : List Field) : ∀ st, splitGo ifs st fields = (splitAll ifs st fields).1 := by
+  induction fields with
+  | nil => intro st; rfl
+  | cons f r ih => intro st; rw [splitGo, ih]; rfl
+
+theorem splitPieces_append (ifs : Str) (a b : List Piece) : ∀ st,
+    splitPieces ifs st (a ++ b) = splitPieces ifs (splitPieces ifs st a) b := by
+  induction a with
+  | nil => intro st; rfl
+  | cons p r ih =>
+    intro st
+    obtain ⟨fs, cur⟩ := st
+    cases p with
+    | unsplit s => simp only [List.cons_append, splitPieces]; exact ih _
+    | split s => simp only [List.cons_append, splitPieces]; exact ih _
+
+theorem splitPieces_space (ifs : Str) (h : ' ' ∈ ifs) (st : SplitSt) :
+    splitPieces ifs st [.split [' ']] = flushCur st := by
+  obtain ⟨fs, cur⟩ := st
+  cases cur <;> simp [splitPieces, splitChars, h, flushCur]
+
+/-- the finished fields only ever grow at the end -/
+theorem splitChars_prefix (ifs : Str) (s : Str) : ∀ (fs : List Field) (cur : Field),
+    splitChars ifs (fs, cur) s = (fs ++ (splitChars ifs ([], cur) s).1, (splitChars ifs ([], cur) s).2) := by
+  induction s with
+  | nil => intro fs cur; simp [splitChars]
+  | cons c cs ih =>
+    intro fs cur
+    simp only [splitChars]
+    split
+    · split
+      · exact ih fs cur
+      · rw [ih (fs ++ [cur]) [], ih ([] ++ [cur]) []]; simp
+    · exact ih fs _
+
+theorem splitPieces_prefix (ifs : Str) (f : List Piece) : ∀ (fs : List Field) (cur : Field),
+    splitPieces ifs (fs, cur) f = (fs ++ (splitPieces ifs ([], cur) f).1, (splitPieces ifs ([], cur) f).2) := by
+  induction f with
+  | nil => intro fs cur; simp [splitPieces]
+  | cons p r ih =>
+    intro fs cur
+    cases p with
+    | unsplit s => simp only [splitPieces]; exact ih fs _
+    | split s =>
+      simp only [splitPieces]
+      rw [splitChars_prefix ifs s fs cur, ih, ih (splitChars ifs ([], cur) s).1]
+      simp
+
+theorem flushCur_prefix (fs : List Field) (st : SplitSt) :
+    flushCur (fs ++ st.1, st.2) = (fs ++ (flushCur st).1, (flushCur st).2) := by
+  obtain ⟨a, cur⟩ := st
+  cases cur <;> simp [flushCur]
+
+theorem flushCur_snd (st : SplitSt) : (flushCur st).2 = [] := by
+  obtain ⟨a, cur⟩ := st
+  cases cur <;> simp [flushCur]
+
+theorem splitAll_prefix (ifs : Str) (fields : List Field) : ∀ (fs : List Field),
+    splitAll ifs (fs, []) fields = (fs ++ (splitAll ifs ([], []) fields).1, []) := by
+  induction fields with
+  | nil => intro fs; simp [splitAll]
+  | cons f r ih =>
+    intro fs
+    have hstep : ∀ fs', flushCur (splitPieces ifs (fs', []) f) =
+        (fs' ++ (flushCur (splitPieces ifs ([], []) f)).1, []) := by
+      intro fs'
+      rw [splitPieces_prefix, flushCur_prefix]
+      simp [flushCur_snd]
+    simp only [splitAll, List.foldl_cons] at ih ⊢
+    rw [hstep fs, hstep []]
+    have h1 := ih (fs ++ (flushCur (splitPieces ifs ([], []) f)).1)
+    have h2 := ih ([] ++ (flushCur (splitPieces ifs ([], []) f)).1)
+    simp only [List.nil_append] at h2 ⊢
+    rw [h1, h2]; simp
+
+theorem flushCur_idem (st : SplitSt) : flushCur (flushCur st) = flushCur st := by
+  obtain ⟨a, cur⟩ := st
+  cases cur <;> simp [flushCur]
+
+theorem flushCur_of_nil (fs : List Field) : flushCur (fs, []) = (fs, []) := by simp [flushCur]
+
+theorem splitAll_cons (ifs : Str) (st : SplitSt) (f : Field) (r : List Field) :
+    splitAll ifs st (f :: r) = splitAll ifs (flushCur (splitPieces ifs st f)) r := rfl
+
+/-- gluing `X`, an unquoted space and `y :: Y` and then splitting = splitting `X`, then `y :: Y`, when the space is
+an IFS character -/
+theorem splitAll_glue_space (ifs : Str) (h : ' ' ∈ ifs) (y : Field) (Y : List Field) : ∀ (X : List Field) (fs : List Field),
+    splitAll ifs (fs, []) (glue X (([Piece.split [' ']] ++ y) :: Y)) =
+      splitAll ifs (splitAll ifs (fs, []) X) (y :: Y) := by
+  intro X
+  induction X with
+  | nil =>
+    intro fs
+    simp only [glue, splitAll_cons, splitPieces_append, splitPieces_space ifs h, flushCur_of_nil]
+    rfl
+  | cons l r ih =>
+    intro fs
+    cases r with
+    | nil =>
+      simp only [glue, splitAll_cons, splitPieces_append, splitPieces_space ifs h]
+      rfl
+    | cons b r' =>
+      rw [glue_cons_cons]
+      show splitAll ifs (flushCur (splitPieces ifs (fs, []) l)) (glue (b :: r') (([Piece.split [' ']] ++ y) :: Y)) =
+        splitAll ifs (splitAll ifs (flushCur (splitPieces ifs (fs, []) l)) (b :: r')) (y :: Y)
+      have hfs : flushCur (splitPieces ifs (fs, []) l) = ((flushCur (splitPieces ifs (fs, []) l)).1, []) :=
+        Prod.ext rfl (flushCur_snd _)
+      rw [hfs]
+      exact ih _
+
+theorem splitAll_state_nil (ifs : Str) (X : List Field) (fs : List Field) : (splitAll ifs (fs, []) X).2 = [] := by
+  rw [splitAll_prefix]
+
+theorem splitFields_glue_space (ifs : Str) (h : ' ' ∈ ifs) (X Y : List Field) :
+    splitGo ifs ([], []) (glue X (glue [[Piece.split [' ']]] Y)) =
+      splitGo ifs ([], []) X ++ splitGo ifs ([], []) Y := by
+  rw [splitGo_eq, splitGo_eq, splitGo_eq]
+  have hX : splitAll ifs ([], []) X = ((splitAll ifs ([], []) X).1, []) := by
+    rw [splitAll_prefix]
+  cases Y with
+  | nil =>
+    have : glue [[Piece.split [' ']]] [] = ([Piece.split [' ']] ++ []) :: [] := rfl
+    rw [this, splitAll_glue_space ifs h, hX, splitAll_cons]
+    simp [splitPieces, flushCur, splitAll]
+  | cons y Y' =>
+    have : glue [[Piece.split [' ']]] (y :: Y') = ([Piece.split [' ']] ++ y) :: Y' := rfl
+    rw [this, splitAll_glue_space ifs h, hX, splitAll_prefix]
+
+/-! globbing distributes -/
+
+theorem globFields_append (opts : Opts) (names : List Str) (A B : List Field) :
+    globFields opts names (A ++ B) = seqAppend [globFields opts names A, globFields opts names B] := by
+  induction A with
+  | nil => cases h : globFields opts names B <;> simp [globFields, seqAppend, h]
+  | cons f r ih =>
+    simp only [List.cons_append, globFields]
+    split
+    · rw [ih]
+      cases globFields opts names r <;> cases globFields opts names B <;> simp [seqAppend]
+    · cases globField opts names f with
+      | none => simp [seqAppend]
+      | some g =>
+        rw [ih]
+        cases globFields opts names r <;> cases globFields opts names B <;> simp [seqAppend]
+
+/-- a word made of `x`, an unquoted space, `y` expands to the expansions of `x` and of `y`, when the space is an
+IFS character -/
+theorem fullExpand_space (env : Env) (opts : Opts) (names : List Str) (h : ' ' ∈ env.ifsStr) (x y : Word) :
+    fullExpand env opts names (x ++ WP.plain (.base (.text [' '])) :: y) =
+      seqAppend [fullExpand env opts names x, fullExpand env opts names y] := by
+  have hb : (basicExpand env (x ++ WP.plain (.base (.text [' '])) :: y)).fields =
+      glue (basicExpand env x).fields (glue [[Piece.split [' ']]] (basicExpand env y).fields) := by
+    have : x ++ WP.plain (.base (.text [' '])) :: y = x ++ ([WP.plain (.base (.text [' ']))] ++ y) := by simp
+    rw [this]
+    simp only [basicExpand, List.map_append, coalesce_append_fields]
+    congr 2
+  simp only [fullExpand, splitFields, hb, splitFields_glue_space env.ifsStr h, globFields_append]
+
+theorem seqAppend_single (r : Option (List Str)) : seqAppend [r] = r := by
+  cases r <;> simp [seqAppend]
+
+theorem seqAppend_nest (a : Option (List Str)) (l : List (Option (List Str))) :
+    seqAppend [a, seqAppend l] = seqAppend (a :: l) := by
+  cases a <;> cases h : seqAppend l <;> simp [seqAppend, h]
+
+/-- words joined with unquoted spaces expand to the concatenation of their separate expansions when the space is
+an IFS character -/
+theorem fullExpand_joined (env : Env) (opts : Opts) (names : List Str) (h : ' ' ∈ env.ifsStr) (r : List Word) :
+    ∀ x : Word, fullExpand env opts names (x ++ r.flatMap fun y => WP.plain (.base (.text [' '])) :: y) =
+      seqAppend ((x :: r).map (fullExpand env opts names)) := by
+  induction r with
+  | nil => intro x; simp [seqAppend_single]
+  | cons y r' ih =>
+    intro x
+    have : x ++ (y :: r').flatMap (fun y => WP.plain (.base (.text [' '])) :: y) =
+        x ++ WP.plain (.base (.text [' '])) :: (y ++ r'.flatMap fun y => WP.plain (.base (.text [' '])) :: y) := by
+      simp
+    rw [this, fullExpand_space env opts names h, ih y, seqAppend_nest]
+    rfl
+
 end BrushVerif.Expand
